@@ -120,11 +120,12 @@ int main(void) {
     printf("%d %d %d %d %d ", ntree, nv, nefc, ni, d->nidof);
     pr(m->tree_dofnum, ntree); pr(m->dof_treeid, nv);
     int sparse = mj_isSparse(m);
+    // per-row trees from the Jacobian; the rows of one constraint (same efc_type and efc_id, consecutive)
+    // are given the union of their trees: a single scalar row can vanish numerically in dense mode
+    int (*rtrees)[64] = malloc(sizeof(int[64]) * (nefc > 0 ? nefc : 1));
+    int* rk = malloc(sizeof(int) * (nefc > 0 ? nefc : 1));
     for (int i = 0; i < nefc; i++) {
-      int cls = d->efc_type[i] == mjCNSTR_EQUALITY ? 0 :
-                (d->efc_type[i] == mjCNSTR_FRICTION_DOF || d->efc_type[i] == mjCNSTR_FRICTION_TENDON) ? 1 : 2;
-      // distinct trees of the structurally (sparse) or numerically (dense) nonzero columns, in column order
-      int trees[64]; int k = 0;
+      int* trees = rtrees[i]; int k = 0;
       if (sparse) {
         for (int j = 0; j < d->efc_J_rownnz[i]; j++) {
           int t = m->dof_treeid[d->efc_J_colind[d->efc_J_rowadr[i] + j]];
@@ -150,8 +151,24 @@ int main(void) {
           if (t >= 0 && !seen && k < 64) trees[k++] = t;
         }
       }
-      printf("%d %d ", cls, k); pr(trees, k);
+      rk[i] = k;
     }
+    for (int i = 0; i < nefc; ) {
+      int e = i + 1;
+      while (e < nefc && d->efc_type[e] == d->efc_type[i] && d->efc_id[e] == d->efc_id[i]) e++;
+      int uni[64]; int uk = 0;
+      for (int r2 = i; r2 < e; r2++) for (int q = 0; q < rk[r2]; q++) {
+        int t = rtrees[r2][q]; int seen = 0; for (int z = 0; z < uk; z++) if (uni[z] == t) seen = 1;
+        if (!seen && uk < 64) uni[uk++] = t;
+      }
+      for (int r2 = i; r2 < e; r2++) {
+        int cls = d->efc_type[r2] == mjCNSTR_EQUALITY ? 0 :
+                  (d->efc_type[r2] == mjCNSTR_FRICTION_DOF || d->efc_type[r2] == mjCNSTR_FRICTION_TENDON) ? 1 : 2;
+        printf("%d %d ", cls, uk); pr(uni, uk);
+      }
+      i = e;
+    }
+    free(rtrees); free(rk);
     pr(d->efc_type, nefc); pr(d->efc_id, nefc);
     if (ni > 0) {
       pr(d->tree_island, ntree); pr(d->island_ntree, ni); pr(d->island_itreeadr, ni); pr(d->map_itree2tree, ntree);
